@@ -1362,6 +1362,19 @@ func (km *KeystoreManager) NextAddresses(dbTransaction db.DBTransaction, checkfu
 	return managedAddresses, nil
 }
 
+// ForgetAddresses drops addresses handed out by NextAddresses from the in-memory keystore. It is
+// for callers whose database transaction failed after NextAddresses succeeded: the records were
+// rolled back, so the cache must not keep the addresses (the next request derives them again).
+func (km *KeystoreManager) ForgetAddresses(mas []*ManagedAddress) {
+	km.mu.Lock()
+	defer km.mu.Unlock()
+	for _, ma := range mas {
+		if addrManager, ok := km.managedKeystores[ma.Account()]; ok {
+			addrManager.forgetAddress(ma)
+		}
+	}
+}
+
 func (km *KeystoreManager) CheckPrivPassphrase(acctId string, pass []byte) error {
 	km.mu.Lock()
 	defer km.mu.Unlock()
